@@ -24,7 +24,7 @@ RULE = ('a temp tree base/{root/{a.txt,sub/b.txt,sub/deep/c.txt}, root_evil/x.tx
         'alphabet [.., ., sub, deep, a.txt, x.txt, root_evil, rootx, root, <empty>] joined by "/" (and re-joined with "\\\\" '
         'and mixed separators for a seeded subset), each also with an absolute prefix (the root itself, its sibling, its '
         'parent); operations: fs[p], p in fs, open_bin, open_str, walk_folder, iteration, read_kv1, on RawFileSystem(root) '
-        'given with and without trailing separator and through FileSystemChain with and without a subfolder prefix; '
+        'given with and without trailing separator, through FileSystemChain with and without a subfolder prefix, and after an UNCONSTRAINED twin object on the same directory has answered the same queries; '
         'packlist.unify_path outputs of the same strings as additional inputs. '
         'Non-trivial = the path contains ".." or an absolute prefix; distinct = distinct (path, configuration).')
 ASSUMPTIONS = ['symbolic links are not part of the statement and none are created',
@@ -95,7 +95,7 @@ def classify(path: str) -> str:
     return 'escape-other'
 
 
-def probe_path(run, sb: Sandbox, aud: Auditor, fs, root: str, label: str, path: str, engine: str, prefix: str = '') -> None:
+def probe_path(run, sb: Sandbox, aud: Auditor, fs, root: str, label: str, path: str, engine: str, prefix: str = '', twin=None) -> None:
     from srctools.filesys import RootEscapeError
     case = {'path': path, 'config': label}
     # a chain member restricted to a subfolder addresses names relative to that subfolder
@@ -103,6 +103,16 @@ def probe_path(run, sb: Sandbox, aud: Auditor, fs, root: str, label: str, path: 
     if label.startswith('chain'):
         model_path = model_path.replace('\\', '/')  # FileSystemChain documents normalising both slash kinds
     inside = sb.contained(model_path, root)
+    if twin is not None:
+        # history: an UNCONSTRAINED filesystem object on the same directory answers the same questions first
+        # (anything it caches or shares must not leak into the constrained one)
+        for op in (lambda: path in twin, lambda: twin[path].open_bin().read(), lambda: twin.open_str(path).read(),
+                   lambda: list(itertools.islice(twin.walk_folder(path), 3))):  # islice: an unconstrained walk of '/' must not be exhausted
+            try:
+                op()
+            except Exception:
+                pass
+        run.count('twin_warmups')
 
     def fail(what: str, witness: Any = None, key: Optional[str] = None) -> None:
         run.violation(f'[{label}] {what}', witness=witness, case=case, engine=engine, key=key or classify(path))
@@ -179,6 +189,7 @@ def make_systems(sb: Sandbox):
     systems.append(('chain', FileSystemChain(RawFileSystem(sb.root)), sb.root, ''))
     systems.append(('chain-prefix-sub', FileSystemChain((RawFileSystem(sb.root), 'sub')), sb.root, 'sub'))
     systems.append(('raw-sub-root', RawFileSystem(os.path.join(sb.root, 'sub')), os.path.join(sb.root, 'sub'), ''))
+    systems.append(('raw-after-unconstrained-twin', RawFileSystem(sb.root, constrain_path=True), sb.root, ''))
     return systems
 
 
@@ -193,6 +204,8 @@ def main(run, shard=(0, 1)) -> None:
     aud = Auditor(sb.base)
     try:
         systems = make_systems(sb)
+        from srctools.filesys import RawFileSystem as _Raw
+        twin_fs = _Raw(sb.root, constrain_path=False)
         thorough = run.tier == 'thorough'
         L = 6 if thorough else 5
         idx = 0
@@ -224,7 +237,8 @@ def main(run, shard=(0, 1)) -> None:
                     for si, (label, fs, root, prefix) in enumerate(systems):
                         if si >= 1 and (idx // shard[1] + si) % 4:
                             continue
-                        probe_path(run, sb, aud, fs, root, label, path, 'exhaustive', prefix)
+                        probe_path(run, sb, aud, fs, root, label, path, 'exhaustive', prefix,
+                                   twin=twin_fs if label == 'raw-after-unconstrained-twin' else None)
                         evals += 1
                         if '..' in path or os.path.isabs(path):
                             nontriv += 1
@@ -250,7 +264,9 @@ def replay(run, data) -> None:
     try:
         for label, fs, root, prefix in make_systems(sb):
             if label == case.get('config'):
-                probe_path(run, sb, aud, fs, root, label, case['path'], 'replay', prefix)
+                from srctools.filesys import RawFileSystem as _Raw
+                probe_path(run, sb, aud, fs, root, label, case['path'], 'replay', prefix,
+                           twin=_Raw(sb.root, constrain_path=False) if label == 'raw-after-unconstrained-twin' else None)
     finally:
         aud.armed = False
         sb.cleanup()
